@@ -274,7 +274,9 @@ IncludeR(r) == [t |-> "include", path |-> r.key, src |-> r.src]
 DefM(name, marker) == [n |-> name, ch |-> <<Text(<<S("<" \o marker \o ":"), P(Id("y")), S(">")>>)>>]
 GFile(segs, irefs, wxs, defs, root) == [path |-> JoinPath(segs), imports |-> [i \in 1..Len(irefs) |-> irefs[i].key],
                                          importSrcs |-> [i \in 1..Len(irefs) |-> irefs[i].src], wxs |-> wxs, defs |-> defs, root |-> root]
-UseT == <<TmplIs(SV("t"), EV(Obj(<<Named("y", EA)>>))), TmplIs(SV("u"), EV(Obj(<<Named("y", EB)>>))), TmplIs(SV("nope"), None)>>
+UseT == <<TmplIs(SV("t"), EV(Obj(<<Named("y", EA)>>))), TmplIs(SV("u"), EV(Obj(<<Named("y", EB)>>))), TmplIs(SV("nope"), None),
+         (* names that no file defines but every plain JavaScript object answers to *)
+         TmplIs(SV("constructor"), None), TmplIs(EV(Lit("'toString'")), None)>>
 MainSegs == <<"d", "a">>
 RefsTo(cur, target) ==      \* several spellings of a reference from `cur` to the file d/<target>
     { Ref(cur, <<target>>, FALSE, ""), Ref(cur, <<".", target>>, FALSE, ".wxml"), Ref(cur, <<"d", target>>, TRUE, ""),
